@@ -755,6 +755,32 @@ func base64AlphabetsRule(P *Program, R *Report, rule string) {
 					for _, op := range i.Operands(nil) {
 						if gl, ok := (*op).(*ssa.Global); ok && gl.Pkg != nil && gl.Pkg.Pkg.Path() == "encoding/base64" {
 							out[gl.Name()] = true
+						} else if ok && gl.Pkg != nil && inModule(gl.Pkg.Pkg) {
+							// a package-level variable of the module that is initialised once with one of the encodings
+							if init := gl.Pkg.Func("init"); init != nil {
+								nStores := 0
+								name := ""
+								for _, f := range P.AllFuncs {
+									if f.Blocks == nil {
+										continue
+									}
+									allInstrs(f, func(j ssa.Instruction) {
+										st, isSt := j.(*ssa.Store)
+										if !isSt || st.Addr != ssa.Value(gl) {
+											return
+										}
+										nStores++
+										if ld, isLd := st.Val.(*ssa.UnOp); isLd && f == init {
+											if bg, isG := ld.X.(*ssa.Global); isG && bg.Pkg != nil && bg.Pkg.Pkg.Path() == "encoding/base64" {
+												name = bg.Name()
+											}
+										}
+									})
+								}
+								if nStores == 1 && name != "" {
+									out[name] = true
+								}
+							}
 						}
 					}
 					if c, ok := i.(*ssa.Call); ok {
